@@ -324,6 +324,7 @@ class AttrDecl:
     preparer: Optional[str] = None  # abs | upper
     item_preparer: Optional[str] = None  # abs | upper
     annotated: bool = True  # False: bare re-default in a subclass body (ownership stays with the parent)
+    bare: bool = False  # a subclass re-declares the attribute by annotation only (`x: int`): ownership moves, default and do_not_copy are the parent's
 
     @property
     def name(self):
@@ -407,8 +408,8 @@ class ModuleDecl:
                 if a.name == attr:
                     if a.default is not None:
                         return a.default
-                    if a.annotated:
-                        return None  # re-declared without default: no default from here on
+                    if a.annotated and not a.bare:
+                        return None  # declared without default: no default from here on
         return None
 
     def flag(self, name, what):
@@ -440,7 +441,7 @@ class ModuleDecl:
         for c in reversed(self.lineage(name)):
             if c.kind != "spec":
                 continue
-            here = next((a for a in c.attrs if a.name == attr and a.annotated), None)
+            here = next((a for a in c.attrs if a.name == attr and a.annotated and not a.bare), None)  # (a bare re-declaration says nothing about copying)
             if here is None and not seen:
                 continue
             specified = c.dnc_class or bool(c.dnc_list)
@@ -613,8 +614,9 @@ def render_class(m: ModuleDecl, c: ClassDecl):
         d = default_src(a)
         if a.annotated and c.kind == "spec":
             body.append(f"    {a.name}: {a.info.ann}" + (f" = {d}" if d is not None else ""))
-        else:
+        elif d is not None:
             body.append(f"    {a.name} = {d}")
+        # (else: the class only overrides the attribute's preparer methods, emitted below)
     if c.overflow and c.overflow not in [a.name for a in c.attrs]:
         pass
     for a in c.attrs:
@@ -871,6 +873,27 @@ def _flag_free(a):
     return a.init and a.repr and a.compare and not a.do_not_copy and not a.invalidated_by
 
 
+def _override_preparers(c, base_attrs, rng, profile):
+    """A subclass (decorated or plain) that overrides - or is the first to define - the preparer method of an inherited attribute, and nothing else about it."""
+    if not profile.get("preparers", True) or rng.random() >= 0.3:
+        return
+    mentioned = {a.name for a in c.attrs}
+    cands = [a for a in base_attrs if a.name not in mentioned and a.tk in ("int", "str", "li", "dsi", "si", "ss", "ls")]
+    if not cands:
+        return
+    a = rng.choice(cands)
+    over = AttrDecl(tk=a.tk, default=None, annotated=False)
+    if a.tk == "int":
+        over.preparer = "inc"
+    elif a.tk == "str":
+        over.preparer = "bang"
+    elif a.tk in ("li", "dsi", "si"):
+        over.item_preparer = "inc"
+    else:
+        over.item_preparer = "bang"
+    c.attrs.append(over)
+
+
 def gen_module(rng, profile=None):
     """Draw a ModuleDecl: main spec class M, optionally spec subclass S(M) and/or plain subclass P(...)."""
     profile = profile or {}
@@ -920,7 +943,12 @@ def gen_module(rng, profile=None):
         S = ClassDecl(name="S", base="M", bootstrap=rng.random() < 0.5)
         # re-declare one attribute with a new default (ownership moves)
         a0 = rng.choice(attrs)
-        if a0.name != M.key:
+        dnc_declared = [a for a in attrs if a.do_not_copy or a.name in M.dnc_list]
+        if profile.get("redeclare_dnc") and dnc_declared and rng.random() < profile["redeclare_dnc"]:
+            a0 = rng.choice(dnc_declared)  # (what becomes of the parent's do_not_copy declaration)
+        if a0.name != M.key and a0.init and a0.repr and a0.compare and not a0.invalidated_by and rng.random() < profile.get("bare_redeclaration", 0.3):
+            S.attrs.append(AttrDecl(tk=a0.tk, default=None, bare=True))  # annotation only
+        elif a0.name != M.key:
             S.attrs.append(AttrDecl(tk=a0.tk, default=random_default(a0.tk, rng, allow_none=False), preparer=None))
         # merely re-default another (ownership stays)
         rest = [a for a in attrs if a is not a0 and a.name != M.key and _flag_free(a)]
@@ -948,6 +976,7 @@ def gen_module(rng, profile=None):
             # the subclass declares its own (different) do_not_copy list for inherited attributes
             cands = [a.name for a in attrs if a.info.kind != "scalar" and a.name not in M.dnc_list]
             S.dnc_list = tuple(rng.sample(cands, min(len(cands), rng.randint(0, 1))))
+        _override_preparers(S, attrs, rng, profile)
         classes.append(S)
         last = S
     if want_P:
@@ -958,6 +987,7 @@ def gen_module(rng, profile=None):
             d = random_default(a2.tk, rng, allow_none=False)
             d[0] = "lit"
             P.attrs.append(AttrDecl(tk=a2.tk, default=d, annotated=False))
+        _override_preparers(P, attrs, rng, profile)
         classes.append(P)
     if profile.get("delegating_init") and rng.random() < profile["delegating_init"]:
         # a subclass (decorated or plain) whose hand-written constructor forwards to the generated one of its parent
